@@ -9,6 +9,8 @@
 mod gen;
 #[path = "../../rt/src/val.rs"]
 mod val;
+#[path = "../../rt/src/watchdog.rs"]
+mod watchdog;
 #[path = "../../pbshared/mod.rs"]
 pub mod shared;
 
@@ -74,6 +76,7 @@ fn main() {
         Some("exec") => {
             let oracle_path = args.iter().position(|a| a == "--oracle").map(|i| args[i + 1].clone());
             std::panic::set_hook(Box::new(|_| {}));
+            watchdog::start();
             let child = std::thread::Builder::new().stack_size(512 << 20).spawn(move || {
                 let stdin = std::io::stdin();
                 let so = std::io::stdout();
@@ -84,6 +87,7 @@ fn main() {
                     let line = line.trim();
                     if line.is_empty() || line.starts_with('#') { let _ = writeln!(w, ""); continue; }
                     let mut o = Oracle { fails: vec![] };
+                    watchdog::tick(i as u64 + 1);
                     let ans = match std::panic::catch_unwind(std::panic::AssertUnwindSafe(|| exec_line(line, &mut o))) {
                         Ok(a) => a,
                         Err(p) => {
@@ -92,8 +96,10 @@ fn main() {
                             "panic".into()
                         }
                     };
+                    watchdog::done();
                     let _ = writeln!(w, "{}", ans);
-                    if let Some(f) = ofile.as_mut() { for x in &o.fails { let _ = writeln!(f, "{}\t{}", i + 1, x); } }
+                    let _ = w.flush();
+                    if let Some(f) = ofile.as_mut() { for x in &o.fails { let _ = writeln!(f, "{}\t{}", i + 1, x); } let _ = f.flush(); }
                 }
                 let _ = w.flush();
                 if let Some(mut f) = ofile { let _ = f.flush(); }
